@@ -487,9 +487,9 @@ impl<const N: usize> Ex<N> {
         let mut out = OpOut::new(cls::RET);
         let len = self.models[x].len();
         let k = st.vals.len();
-        out.argclass = lenclass(k, N - len, N) * 5 + (st.b as u64 % 5);
+        out.argclass = lenclass(k, N - len, N) * 6 + (st.b as u64 % 6);
         out.nontrivial = k > 0;
-        let mode = st.b % 5;
+        let mode = st.b % 6;
         if mode == 3 {
             // extend(slice.iter().cloned())
             let src: Vec<Tracked> = st.vals.iter().map(|v| Tracked::new(*v % 3, Origin::Harness)).collect();
@@ -513,7 +513,11 @@ impl<const N: usize> Ex<N> {
             self.adopt_tail(x, keep_old, N.min(total), out.own, "extend(cloned)", &mut acc);
             return out;
         }
-        let it = SrcIter::new(&st.vals, if mode == 4 { 3 } else { mode });
+        let it = SrcIter::new(&st.vals, match mode {
+            4 => 3,
+            5 => 4,
+            m => m,
+        });
         let made = it.made.clone();
         let b = self.bufs[x].as_mut().unwrap();
         let r = crate::elem::window(|| b.extend(it));
@@ -607,6 +611,7 @@ impl Iterator for SrcIter {
         match self.mode {
             1 | 3 => (0, None),
             2 => (rem + 5, Some(rem + 5)),
+            4 => (0, Some(usize::MAX)),
             _ => (rem, Some(rem)),
         }
     }
